@@ -14,6 +14,9 @@
 
 #include "common/flowcommon.hpp"
 
+#include "fastscapelib/eroders/spl.hpp"
+#include "fastscapelib/eroders/diffusion_adi.hpp"
+
 #ifndef FASTSCAPELIB_VERIF_HOOKS
 #error "h_conc needs the pool hooks (-DFASTSCAPELIB_VERIF_HOOKS)"
 #endif
@@ -542,6 +545,323 @@ namespace
         return D;
     }
 
+
+    // ------------------------------------------------------------------------------------ independent objects on two threads
+    // Two families of objects that share nothing (own grid, own flow graph, own eroders) are driven through the same steps
+    // (a) one after the other and (b) at the same time on two threads. Every statement about "a grid" / "a flow graph" / "an
+    // eroder" speaks of the object and its inputs only: what another object of the same type does at the same moment is not
+    // an input, so (b) must reproduce (a) bit for bit. Under ThreadSanitizer any state the two families do share (function-local
+    // statics, class statics, thread-unsafe lazy initialisation) is reported from the access pattern alone.
+    struct IndepWorld
+    {
+        Env env;
+        std::vector<OpSpec> ops;
+        GraphBundle gb;
+        std::vector<std::vector<double>> fields;   // one per step
+        std::vector<std::uint8_t> mask;
+        std::vector<std::size_t> bl;
+        bool custom_bl = false;
+        double k_spl = 1e-4, m_exp = 0.5, n_exp = 1.0, dt_spl = 1.0, k_adi = 1.0, dt_adi = 1.0;
+        bool multi = false;
+    };
+
+    // the diffusion eroder exists for raster grids only
+    template <class G, bool is_raster>
+    struct AdiBox
+    {
+        void make(G&, double)
+        {
+        }
+        std::vector<double> erode(const arr_t&, double)
+        {
+            return {};
+        }
+    };
+    template <class G>
+    struct AdiBox<G, true>
+    {
+        std::unique_ptr<fs::diffusion_adi_eroder<G>> er;
+        void make(G& grid, double k)
+        {
+            er = std::make_unique<fs::diffusion_adi_eroder<G>>(grid, k);
+        }
+        std::vector<double> erode(const arr_t& z, double dt)
+        {
+            return flat_vec(er->erode(z, dt));
+        }
+    };
+
+    // runs every step on the world's own objects; returns one digest per step. `what`: 0 grid queries only, 1 + routes,
+    // 2 + spl, 3 grid + adi
+    std::vector<Digest> indep_run(IndepWorld& W, int what)
+    {
+        std::vector<Digest> out;
+        using spl_t = fs::spl_eroder<graph_t>;
+        std::unique_ptr<spl_t> spl;
+        if (what == 2)
+            spl = std::make_unique<spl_t>(*W.gb.graph, W.k_spl, W.m_exp, W.n_exp, 1e-3);
+        AdiBox<grid_t, family == Family::raster> adi;
+        if (what == 3)
+            adi.make(*W.env.grid, W.k_adi);
+        const std::size_t n = W.env.R.n;
+        for (std::size_t s = 0; s < W.fields.size(); ++s)
+        {
+            Digest D;
+            // neighbour queries (cache / scratch storage of the grid)
+            {
+                std::vector<std::uint64_t> q;
+                typename grid_t::neighbors_type nb;
+                for (std::size_t i = s % 3; i < n; i += 3)
+                {
+                    W.env.grid->neighbors(i, nb);
+                    q.push_back(nb.size());
+                    for (auto& e : nb)
+                    {
+                        q.push_back(e.idx);
+                        q.push_back(bits(e.distance));
+                    }
+                }
+                D.add("neighbors", std::move(q));
+            }
+            arr_t z = to_arr(W.env.g, W.fields[s]);
+            if (what == 1 || what == 2)
+            {
+                const arr_t& h = W.gb.graph->update_routes(z);
+                std::vector<double> hv = flat_vec(h);
+                D.add_d("returned_elevation", hv);
+                GState S = extract(W.gb.graph->impl());
+                digest_tables(D, S);
+                D.add_d("accumulate(1)", flat_vec(W.gb.graph->accumulate(1.0)));
+                D.add_s("basins", flat_vec(W.gb.graph->basins()));
+                if (what == 2)
+                {
+                    arr_t area = W.gb.graph->accumulate(1.0);
+                    for (std::size_t i = 0; i < n; ++i)
+                        if (!(area.flat(i) > 0))
+                            area.flat(i) = 1e-300;
+                    const arr_t& e = spl->erode(h, area, W.dt_spl);
+                    D.add_d("spl_erosion", flat_vec(e));
+                    D.add_s("spl_n_corr", { spl->n_corr() });
+                }
+            }
+            if (what == 3)
+                D.add_d("adi_erosion", adi.erode(z, W.dt_adi));
+            out.push_back(std::move(D));
+        }
+        return out;
+    }
+
+    void indep_fill(IndepWorld& W, Rng& rng, std::size_t max_side, int what, std::size_t nsteps)
+    {
+        GridGenOpts o;
+        o.max_side = max_side;
+        o.max_profile = max_side * max_side;
+        o.allow_overrides = rng.chance(0.3);
+        for (int tries = 0; tries < 50; ++tries)
+        {
+            W.env.g = gen_grid_spec(rng, o);
+            bool ok = W.env.g.size() >= 12;
+            if (what == 3 && family == Family::raster)
+                ok = ok && W.env.g.rows >= 3 && W.env.g.cols >= 3;
+            if (ok)
+                break;
+        }
+        W.env.R = ref_geom(W.env.g);
+        switch (rng.below(6))
+        {
+            case 0:
+                W.ops = { op_single() };
+                break;
+            case 1:
+                W.ops = { op_pflood(), op_single() };
+                break;
+            case 2:
+                W.ops = { op_single(), op_mst(rng.chance(0.5) ? fs::mst_method::kruskal : fs::mst_method::boruvka, fs::mst_route_method::carve) };
+                break;
+            case 3:
+                W.ops = { op_pflood(), op_multi(rng.pick(std::vector<double>{ 0.0, 1.0, 1.1, 2.0 })) };
+                W.multi = true;
+                break;
+            case 4:
+                W.ops = { op_single(), op_snap("s", true, true), op_mst(fs::mst_method::kruskal, fs::mst_route_method::basic) };
+                break;
+            default:
+                W.ops = { op_single_par(static_cast<int>(rng.range(2, 4))) };
+                break;
+        }
+        for (std::size_t s = 0; s < nsteps; ++s)
+        {
+            int cls = static_cast<int>(rng.below(n_field_classes));
+            if (cls == 6 || cls == 5)
+                cls = 0;  // eroder steps: keep ordinary magnitudes
+            W.fields.push_back(gen_field_spec(rng, W.env.g, W.env.R, cls));
+        }
+        FlowInputs in;
+        in.z = W.fields[0];
+        std::string c1, c2;
+        in.mask = gen_mask(rng, W.env.g, W.env.R, c1);
+        in.custom_bl = gen_base_levels(rng, W.env.R, in.bl, c2);
+        fix_domain(rng, W.env.R, in, true);
+        W.mask = in.mask;
+        W.bl = in.bl;
+        W.custom_bl = in.custom_bl;
+        W.k_spl = rng.logu(1e-6, 1e-2);
+        W.m_exp = rng.pick(std::vector<double>{ 0.4, 0.5, 1.0 });
+        W.n_exp = W.multi ? 1.0 : rng.pick(std::vector<double>{ 1.0, 1.0, 0.8, 1.5, 2.0 });
+        W.dt_spl = rng.pick(std::vector<double>{ 1.0, 1e2, 1e4 });
+        W.k_adi = rng.logu(1e-3, 1e2);
+        W.dt_adi = rng.pick(std::vector<double>{ 1e-2, 1.0, 1e2 });
+    }
+
+    // fresh objects for the world's specification
+    void indep_build(IndepWorld& W)
+    {
+        W.env.grid = make_grid(W.env.g);
+        W.gb = build_graph(*W.env.grid, W.ops);
+        if (W.custom_bl)
+            W.gb.graph->set_base_levels(W.bl);
+        if (!W.mask.empty())
+            W.gb.graph->set_mask(to_mask(W.env.g, W.mask));
+    }
+
+    void indep_case(Runner& R, Rng& rng, const std::string& prop, std::size_t max_side)
+    {
+        int what = 1;
+        const char* P = "C09";
+        if (prop == "C07")
+        {
+            what = 0;
+            P = "C07";
+        }
+        else if (prop == "C12" || prop == "C13")
+        {
+            what = 2;
+            P = prop == "C12" ? "C12" : "C13";
+        }
+        else if (prop == "C14")
+        {
+            what = 3;
+            P = "C14";
+        }
+        else if (prop == "all")
+            what = static_cast<int>(rng.below(4));
+        if (what == 3 && family != Family::raster)
+            what = 0;
+        if (prop == "all")
+            P = what == 0 ? "C07" : (what == 1 ? "C09" : (what == 2 ? "C13" : "C14"));
+        clear_delays();
+        const std::size_t nsteps = static_cast<std::size_t>(rng.range(2, 5));
+        IndepWorld A, B;
+        indep_fill(A, rng, max_side, what, nsteps);
+        indep_fill(B, rng, max_side, what, nsteps);
+        Hasher ch;
+        A.env.g.hash_into(ch);
+        B.env.g.hash_into(ch);
+        for (auto& f : A.fields)
+            ch.vec(f);
+        // (a) one after the other
+        indep_build(A);
+        indep_build(B);
+        std::vector<Digest> refA = indep_run(A, what), refB = indep_run(B, what);
+        // (b) fresh objects, both families at the same time
+        const int rounds = 2;
+        for (int round = 0; round < rounds; ++round)
+        {
+            indep_build(A);
+            indep_build(B);
+            std::vector<Digest> gotA, gotB;
+            std::atomic<int> ready{ 0 };
+            auto body = [&](IndepWorld& W, std::vector<Digest>& got)
+            {
+                ready.fetch_add(1);
+                while (ready.load() < 2)
+                    std::this_thread::yield();
+                got = indep_run(W, what);
+            };
+            std::thread tb([&]() { body(B, gotB); });
+            body(A, gotA);
+            tb.join();
+            R.count("indep.concurrent_rounds");
+            R.count(std::string("indep.kind.") + (what == 0 ? "grid_queries" : (what == 1 ? "routes" : (what == 2 ? "spl" : "adi"))));
+            auto cmp = [&](const char* who, const std::vector<Digest>& ref, const std::vector<Digest>& got, const IndepWorld& W)
+            {
+                for (std::size_t s = 0; s < ref.size() && s < got.size(); ++s)
+                {
+                    std::string d = ref[s].diff(got[s]);
+                    if (!d.empty())
+                    {
+                        R.violation(P, "concurrent_independent_objects_differ:" + d.substr(0, d.find_first_of("[:")),
+                                    JObj().raw("grid", W.env.g.json(100)).raw("operators", ops_json(W.ops)).s("family", who).i("step", static_cast<long>(s))
+                                        .s("detail", std::string("objects of family ") + who + " driven alone vs while an independent family runs on another thread: " + d).str());
+                        return false;
+                    }
+                }
+                return true;
+            };
+            if (!cmp("A", refA, gotA, A) || !cmp("B", refB, gotB, B))
+                break;
+            R.count("indep.steps_compared", static_cast<long>(2 * nsteps));
+        }
+        if (what == 0)
+        {
+            // one fresh grid object queried by two threads at the same time on disjoint sets of nodes: this is what the
+            // multi-threaded router does (each worker looks up the neighbours of its own block of nodes), and the per-node
+            // neighbour cache is laid out for it. Compared with the look-ups of a grid object used by one thread only.
+            auto ref_grid = make_grid(A.env.g);
+            const std::size_t n = A.env.R.n;
+            auto lookup = [](grid_t& g, std::size_t i)
+            {
+                std::vector<std::uint64_t> q;
+                typename grid_t::neighbors_type nb;
+                g.neighbors(i, nb);
+                q.push_back(nb.size());
+                for (auto& e : nb)
+                {
+                    q.push_back(e.idx);
+                    q.push_back(bits(e.distance));
+                    q.push_back(static_cast<std::uint64_t>(e.status));
+                }
+                return q;
+            };
+            std::vector<std::vector<std::uint64_t>> want(n), got(n);
+            for (std::size_t i = 0; i < n; ++i)
+                want[i] = lookup(*ref_grid, i);
+            auto shared = make_grid(A.env.g);
+            const std::size_t nthreads = static_cast<std::size_t>(rng.range(2, 4));
+            const bool blocks = rng.chance(0.5);  // contiguous blocks (as the router) or interleaved nodes
+            std::atomic<std::size_t> ready{ 0 };
+            auto body = [&](std::size_t t)
+            {
+                ready.fetch_add(1);
+                while (ready.load() < nthreads)
+                    std::this_thread::yield();
+                for (std::size_t i = 0; i < n; ++i)
+                {
+                    const std::size_t owner = blocks ? std::min(nthreads - 1, i * nthreads / n) : i % nthreads;
+                    if (owner == t)
+                        got[i] = lookup(*shared, i);
+                }
+            };
+            std::vector<std::thread> th;
+            for (std::size_t t = 1; t < nthreads; ++t)
+                th.emplace_back(body, t);
+            body(0);
+            for (auto& t : th)
+                t.join();
+            R.count("indep.shared_grid_disjoint_nodes_rounds");
+            for (std::size_t i = 0; i < n; ++i)
+                if (got[i] != want[i])
+                {
+                    R.violation(P, "concurrent_lookups_of_disjoint_nodes_differ",
+                                JObj().raw("grid", A.env.g.json(100)).i("node", static_cast<long>(i)).i("threads", static_cast<long>(nthreads))
+                                    .s("detail", "neighbours of node " + std::to_string(i) + " looked up while other threads look up other nodes of the same grid object differ from a single-threaded look-up").str());
+                    break;
+                }
+        }
+        R.set_case_hash(ch.h);
+        R.nontrivial(true);
+    }
+
     void graph_case(Runner& R, Rng& rng, bool allow_delays, std::size_t max_side, int repeats)
     {
         const char* P = "C10";
@@ -699,10 +1019,59 @@ namespace
             std::vector<double> kin(n);
             for (auto& v : kin)
                 v = rng.uniform(-1, 1);
-            for (int kk = 0; kk < 2; ++kk)
+            if (rng.chance(0.3))
             {
-                auto dir = kk == 0 ? fs::flow_graph_traversal_dir::breadth_upstream : fs::flow_graph_traversal_dir::any;
+                // kernel requests the library refuses (documented errors): unsupported traversal orders, a node-data getter that
+                // reports an invalid index. They must fail cleanly; the regular kernels below run on the same graph and pool
+                // afterwards and must still equal the sequential results
+                auto refused = [&](const char* what, fs::flow_graph_traversal_dir dir, int nt, bool failing_getter)
+                {
+                    std::vector<double> out(n, -1.0);
+                    KData D;
+                    D.impl = &PG.graph->impl();
+                    D.out = &out;
+                    D.in = &kin;
+                    fs::detail::flow_kernel_data kd;
+                    kd.data = &D;
+                    auto k = make_kernel(dir, nt, 0, 0);
+                    if (failing_getter)
+                    {
+                        auto inner = k.node_data_getter;
+                        const std::size_t bad = rng.below(n);
+                        k.node_data_getter = [inner, bad](std::size_t idx, void* data, void* nd) -> int { return idx == bad ? 1 : inner(idx, data, nd); };
+                    }
+                    try
+                    {
+                        PG.graph->apply_kernel(k, kd);
+                        R.count(std::string("c10.kernel_request_accepted.") + what);
+                    }
+                    catch (const std::runtime_error&)
+                    {
+                        R.count(std::string("c10.kernel_request_refused.") + what);
+                    }
+                };
+                refused("sequential_downstream", rng.chance(0.5) ? fs::flow_graph_traversal_dir::depth_downstream : fs::flow_graph_traversal_dir::breadth_downstream, 1, false);
+                refused("parallel_depth_first", rng.chance(0.5) ? fs::flow_graph_traversal_dir::depth_upstream : fs::flow_graph_traversal_dir::depth_downstream, static_cast<int>(rng.range(2, 8)), false);
+                refused("sequential_getter_error", fs::flow_graph_traversal_dir::breadth_upstream, 1, true);
+            }
+            for (int kk = 0; kk < 3; ++kk)
+            {
+                // breadth-first upstream and any order run in parallel; depth-first upstream is sequential only (compared with the
+                // breadth-first result: both are valid bottom-up orders for this kernel, see C06)
+                auto dir = kk == 0 ? fs::flow_graph_traversal_dir::breadth_upstream : (kk == 1 ? fs::flow_graph_traversal_dir::any : fs::flow_graph_traversal_dir::depth_upstream);
                 std::vector<double> ref = run_kernel(*SG.graph, dir, 1, 0, 0, kin);
+                if (kk == 2)
+                {
+                    std::vector<double> got = run_kernel(*PG.graph, dir, 1, 0, 0, kin);
+                    R.count("c10.depth_first_kernels_compared");
+                    for (std::size_t i = 0; i < n; ++i)
+                        if (bits(got[i]) != bits(ref[i]))
+                        {
+                            R.violation(P, "sequential_kernel_differs:depth_upstream", witness(in, "node " + std::to_string(i) + ": " + jhex(got[i]) + " on the graph routed in parallel vs " + jhex(ref[i])));
+                            break;
+                        }
+                    continue;
+                }
                 int reps = std::max(2, repeats / 2);
                 int kt = t;  // first: same thread count as the router (no resize), then sticky / random
                 for (int rep = 0; rep < reps; ++rep)
@@ -791,9 +1160,13 @@ main(int argc, char** argv)
                            }
                            else if (prop == "C10" || prop == "C03" || prop == "C04" || prop == "C06")
                                graph_case(R_, rng, delays, max_side, repeats);
+                           else if (prop == "C07" || prop == "C09" || prop == "C12" || prop == "C13" || prop == "C14")
+                               indep_case(R_, rng, prop, max_side);
                            else
                            {
-                               if (k % 2)
+                               if (k % 3 == 2)
+                                   indep_case(R_, rng, prop, max_side);
+                               else if (k % 2)
                                    graph_case(R_, rng, delays, max_side, repeats);
                                else
                                    pool_case(R_, rng, delays, 2000);
